@@ -70,7 +70,8 @@ def gen_tables(rng, tier, seed):
             ops.append(['churn', link, rng.randrange(2), rng.choice([66, 70, 130])])
         elif r < 0.96 and cuts < 2:
             cuts += 1
-            what = rng.choice(['open', 'close', 'data', 'idle'])
+            # ('open_other': the link goes away while an open is in flight on the device's OTHER link, which must not notice)
+            what = rng.choice(['open', 'close', 'data', 'idle', 'open_other'])
             ops.append(['cut', link, rng.randrange(2), what, rng.randrange(0, 8), rng.randrange(8), rng.randrange(2)])
         else:
             ops.append(['close_server_then_open', link, rng.randrange(2)])
@@ -384,6 +385,15 @@ def _do_cut(cx, op):
             ch.ends[opside].write(bytes(100))
     else:
         label = 'idle'
+    bystander = None
+    other = 1 - link
+    if what == 'open_other' and cx.links[other] is not None:
+        okind = 'classic' if cx.classic(other) else 'le_coc'
+        opsm = (CL_PSMS if okind == 'classic' else LE_PSMS)[0]
+        if opsm in cx.servers[cx.node(other, 1)]:
+            before = len(cx.accepted[cx.node(other, 1)])
+            bystander = (sim.loop.create_task(_open_coro(cx, other, 0, okind, opsm, 1)), okind, before)
+            sim.probe('link_cut_while_an_open_is_in_flight_on_the_other_link')
     # count air messages from now; cut after k of them (or when the op finished earlier)
     peer_node = cx.peers[link]
     start = world[0].link_in.delivered + world[peer_node].link_in.delivered
@@ -416,6 +426,18 @@ def _do_cut(cx, op):
         cx.accepted[node].clear()
     _tables_after_cut(cx, link, conns, label)
     cx.shape.append(('cut', label, cutter, in_flight))
+    if bystander is not None:
+        bt, okind, before = bystander
+        st = sim.loop.drive(bt.done, 60.0)
+        if st != 'done' or bt.cancelled() or bt.exception() is not None:
+            why = 'hang' if not bt.done() else ('cancelled' if bt.cancelled() else type(bt.exception()).__name__)
+            sim.violation_once('bystander', f'open-on-another-link-failed-when-a-link-was-lost:{okind}:{why}', describe_task(bt) if not bt.done() else repr(bt.exception() if not bt.cancelled() else 'cancelled'))
+            if not bt.done():
+                bt.cancel()
+            return False
+        sim.loop.settle()
+        if not _register(cx, other, 0, okind, bt.result(), before):
+            return False
     # reconnect
     cx.connect_link(link)
     return True
